@@ -3,7 +3,10 @@ package c12
 import (
 	"errors"
 	"fmt"
+	"github.com/go-kid/ioc"
+	"github.com/go-kid/ioc/container/support"
 	"math"
+	"os"
 	"strings"
 	"testing"
 
@@ -721,4 +724,46 @@ func TestLoadersReinit(t *testing.T) {
 		}
 		kit.Rec.Case(d, nt, labels...)
 	})
+}
+
+// ---- participants announced process-wide (ioc.Register), the run brings more - own process ----------------------
+
+func TestStaticRegisteredParticipants(t *testing.T) {
+	if os.Getenv("VERIF_GLOBAL_SETTINGS") != "1" {
+		t.Skip("changes process-wide state: runs in a process of its own")
+	}
+	kit.Rec.Rule(rule)
+	var log []int
+	specs := []spec{{Class: 0, Ord: 5}, {Class: 1, Ord: -1}, {Class: 2}, {Class: 0, Ord: -2}, {Class: 1, Ord: 8}, {Class: 2}}
+	mk := func(i int) any {
+		pi := pinfo{id: i, class: specs[i].Class, ord: specs[i].Ord, log: &log, name: fmt.Sprintf("greg-runner-%d", i)}
+		switch specs[i].Class {
+		case 0:
+			return &RunPO{PO{pi}}
+		case 1:
+			return &RunOO{OO{pi}}
+		}
+		return &RunNO{NO{pi}}
+	}
+	ioc.Register(mk(0), mk(1), mk(2)) // the first three are announced process-wide
+	for round, ownRegistry := range []bool{false, true, true, false} {
+		log = nil
+		ops := []app.SettingOption{app.SetComponents(mk(3), mk(4), mk(5))}
+		if ownRegistry {
+			ops = append([]app.SettingOption{app.SetRegistry(support.NewRegistry())}, ops...)
+		}
+		var err error
+		if p := kit.Protect(func() { _, err = ioc.Run(ops...) }); p != nil {
+			t.Fatalf("C12: ioc.Run panicked: %v", p)
+		}
+		desc := fmt.Sprintf("three runners announced through ioc.Register, three passed to ioc.Run (run %d, registry of its own: %v)", round, ownRegistry)
+		if err != nil {
+			t.Fatalf("C12: %s: start-up failed: %v", desc, err)
+		}
+		if err := checkSeq(specs, log); err != nil {
+			kit.DumpReplay("c12-registered-participants", map[string]any{"scenario": desc, "sequence": log, "error": err.Error()})
+			t.Fatalf("C12: %s: runner sequence %v: %v", desc, log, err)
+		}
+		kit.Rec.Case(desc, ownRegistry, "registered-participants")
+	}
 }
